@@ -260,7 +260,7 @@ func (c *c10ctx) ruleR4() {
 var c10Acquire = map[string]string{
 	"net.ListenUDP": "udp socket",
 	"net.DialUDP":   "udp socket",
-	"(*github.com/usnistgov/dastard/ringbuffer.RingBuffer).Open":   "ring buffer",
+	"(*github.com/usnistgov/dastard/ringbuffer.RingBuffer).Open":     "ring buffer",
 	"(*github.com/usnistgov/dastard/lancero.Lancero).StartAdapter":   "lancero adapter",
 	"(*github.com/usnistgov/dastard/lancero.Lancero).StartCollector": "lancero collector",
 }
